@@ -126,7 +126,7 @@ class P_pdffit(StructureParser):
                 emsg = "%d: file is not in PDFfit format" % p_nl
                 raise StructureFormatError(emsg)
             # Load data from atom entries.
-            p_natoms = reduce(lambda x, y: x * y, stru.pdffit["ncell"])
+            p_natoms = reduce(lambda x, y: x * y, stru.pdffit["ncell"], 1)
             # we are now inside data block
             for line in ilines:
                 p_nl += 1
